@@ -6,7 +6,7 @@ MODE = "corpus"
 EXPLANATION = ("For every round-trip class of the spec corpus the repository's own generator output is executed symbolically together with the real EoWriter/EoReader: "
                "structure (string lengths, array counts, optional presence, case selection) is value-forked, all leaf values are solver variables over their whole range.")
 BOUNDS = {"quick": "corpus: every wire-unambiguous class of corpus/core (programs quantifier = this fixed corpus); strings of length 0 or 1 (fixed-length ones at their length), arrays of 0, 1 or 2 elements (fixed at their length); integers/ordinals/code points over their full range",
-          "thorough": "same corpus; string lengths in {0,1,2,3}, array counts in {0,1,2,3}"}
+          "thorough": "same corpus; per class the richest of (lens<=1,counts<=2) (lens<=2,counts<=2) (lens<=3,counts<=2) (lens<=3,counts<=3) whose structure count stays <= 6000 (the choice is in each job name)"}
 OUTSIDE = "specifications not in the corpus; longer strings and arrays; wire-ambiguous specs (C01's own quantifier excludes them)"
 ASSUMPTIONS = ["validity predicate of C01: cp1252-encodable strings, no y-diaeresis where sanitised or padded, no '~' in encoded strings, present optionals serialize to at least one byte, "
                "elements of unbounded delimited arrays begin with a non-empty first chunk (otherwise indistinguishable from end of data)"]
@@ -20,12 +20,16 @@ def programs(tier):
     return len(corpus.classes("roundtrip")[1])
 
 
+THOROUGH = [{"lens": [0, 1], "counts": [0, 1, 2]}, {"lens": [0, 1, 2], "counts": [0, 1, 2]}, {"lens": [0, 1, 2, 3], "counts": [0, 1, 2]},
+            {"lens": [0, 1, 2, 3], "counts": [0, 1, 2, 3]}]
+
+
 def jobs(tier):
     types, cls = corpus.classes("roundtrip")
-    cfgs = [{"lens": [0, 1], "counts": [0, 1, 2]}] if tier == "quick" else [{"lens": [0, 1, 2, 3], "counts": [0, 1, 2, 3]}]
     js = []
     for c in cls:
-        for i, cfg in enumerate(cfgs):
-            js.append(dict(name=f"roundtrip[{c['name']},cfg{i}]", fn="roundtrip", args=[types, c, cfg], tree="core", collect_models=2,
-                           expect=["deserializer consumes exactly the bytes written"]))
+        cfg = {"lens": [0, 1], "counts": [0, 1, 2]} if tier == "quick" else corpus.choose_cfg(types, c["instrs"], THOROUGH, 6000)
+        js.append(dict(name=f"roundtrip[{c['name']},lens={cfg['lens'][-1]},counts={cfg['counts'][-1]}]", fn="roundtrip",
+                       args=[corpus.closure(types, c["instrs"]), c, cfg], tree="core", collect_models=2,
+                       expect=["deserializer consumes exactly the bytes written"]))
     return js
